@@ -61,6 +61,11 @@ S_GROW = S([0, 0, 0], aff(0.5, t=0.5))
 S_MOVE = S([aff(0, t=1), 0, 0.2], 0.6)
 G_S = S([0.7, 0.3, 0], 0.6)
 IN_S = S([0.1, 0, 0], 0.4)
+# convex polyhedra realised by TrimeshPolyhedron (reference: tpmc.ref.poly3d); inward winding / STL file as variants
+M_TET = M("tetra")
+M_BOX = M("box", "in", "file")
+M_IN_S = S([1.2, 0.0, 0.6], 0.3)        # inside the box
+M_G_S = S([0.9, 0.6, 0.4], 0.6)         # generic position w.r.t. the tetrahedron
 # parameter intervals used as second product factors
 IT = I(0, 1, var="t")
 IT2 = I(0.5, 1, var="t")
@@ -94,9 +99,9 @@ def leaves1(tier):
 
 
 def leaves3(tier):
-    out = [S1, S_GROW, S2]
+    out = [S1, S_GROW, S2, M_TET, M_BOX]
     if tier == "thorough":
-        out += [S_MOVE]
+        out += [S_MOVE, M("tetra", "in", "arrays"), M("tetra", "out", "file"), M("box", "out", "arrays")]
     return out
 
 
@@ -122,9 +127,11 @@ def booleans1(tier):
 
 
 def booleans3(tier):
-    out = [Cut(S1, IN_S, contained=True), N(S1, G_S)]
+    out = [Cut(S1, IN_S, contained=True), N(S1, G_S), Cut(M_BOX, M_IN_S, contained=True), N(M_TET, M_G_S)]
     if tier == "thorough":
-        out += [U(S1, G_S), Cut(S1, G_S), U(S2, S([3, 0, 0], 0.5), disjoint=True), Cut(S_GROW, IN_S)]
+        out += [U(S1, G_S), Cut(S1, G_S), U(S2, S([3, 0, 0], 0.5), disjoint=True), Cut(S_GROW, IN_S),
+                U(M_TET, M_G_S), Cut(M_TET, M_G_S), U(M_TET, S([3, 0, 0], 0.5), disjoint=True),
+                Tr(M_TET, [aff(0, t=1), 0.5, 0])]
     return out
 
 
@@ -174,7 +181,8 @@ def products(tier):
     out = [X(I01, IT), X(C1, IT), X(I_GROW, IT), X(C_GROW, IT), X(C_MOVE, IT), X(SQ_MOVE, IT2),
            X(I(0, 1, var="y"), I01), X(SQ, I(0, 2, var="y")), X(Cut(SQ, G_CMOVE, contained=True), IT),
            X(I_GROW, I(0, 1, var="s")), X(I_STEEP, IT),
-           X(I_STEEP, X(I(0, 1, var="s"), IT))]      # first factor depends on only ONE of the second factor's variables
+           X(I_STEEP, X(I(0, 1, var="s"), IT)),      # first factor depends on only ONE of the second factor's variables
+           X(M_TET, IT)]
     if tier == "thorough":
         out += [X(TR_GROW, IT), X(S_GROW, IT), X(U(SQ_MOVE, G_C), IT), X(Tr(SQ, [aff(0, t=1), 0]), IT),
                 X(Rot(SQ, aff(0, t=1)), IT), X(X(I(0, 1, var="y"), I01), IT), X(C_ST, X(I(0, 1, var="s"), IT)),
